@@ -215,6 +215,17 @@ pub fn correspond(c: &Case, model: &mut Model, rep: &mut Report, prop: &str) -> 
         }
     };
     let doc0 = dump(&fsm);
+    // non-vacuity of the theorems' hypothesis: the reader's tables satisfy `conformantB`
+    match model.ask(&format!("int conformant {}", doc0)).as_str() {
+        "1" => rep.count("docs_conformant"),
+        "0" => {
+            rep.count("docs_not_conformant");
+            if rep.extra.get("first_not_conformant").is_none() {
+                rep.extra.insert("first_not_conformant".to_string(), json!({"origin": c.origin, "xml": c.xml}));
+            }
+        }
+        _ => rep.disagree(json!({"origin": c.origin, "xml": c.xml, "model": "conformant: bad-op"})),
+    }
     let batches = batches_of(&c.events, c.single);
     let pre = run_model(model, &doc0, &batches);
     if pre.status == "diverged" {
@@ -450,7 +461,7 @@ pub fn run(args: &Args, model: &mut Model, prop: &str) -> Report {
         }]
     } else {
         let mut v = corpus(prop);
-        let n = if args.thorough { 12000 } else { 500 };
+        let n = if args.thorough { 12000 } else { 300 };
         for i in 0..n {
             let (c, ns) = gen_case(prop, args.seed, i);
             rep.count(&format!("doc_states_{}", if ns <= 4 { "1-4" } else if ns <= 8 { "5-8" } else { "9+" }));
